@@ -16,7 +16,7 @@ func concProp(id string, quick, thorough int, rule string) {
 const concRule = "one case = one generated scenario (container kind, hash mode, table knobs, prefill, set-up, 1-3 phases of 2-4 tasks x 1-8 operations, strategy, delay/stall faults) executed under the seeded scheduler; distinct = distinct hash of the full event trace (task, operation kind, address ordinal at every synchronisation step); non-trivial = at least two operations of different tasks overlapped in the phase (a context switch landed between the first and last step of an operation)"
 
 func init() {
-	concProp("C02", 200000, 200000, concRule+"; oracle: porcupine against the TTL-map model (frozen clock; in 30% of the phases a task ticks the clock by nanoseconds and the timed model applies) + sequential read-out")
+	concProp("C02", 300000, 300000, concRule+"; oracle: porcupine against the TTL-map model (frozen clock; in 30% of the phases a task ticks the clock by nanoseconds and the timed model applies) + sequential read-out")
 	concProp("C03", 300000, 300000, concRule+"; oracle: porcupine against map[string]interface{} + sequential read-out")
 	concProp("C04", 300000, 300000, concRule+"; oracle: porcupine against map[K]V + sequential read-out; key types int, string, struct, any; default and adversarial hashers")
 	concProp("C05", 250000, 250000, concRule+"; workloads: racers on one key / increment chains; oracle: exactly-one-winner, user-function call counts, distinct contiguous old values")
